@@ -374,10 +374,10 @@ def cross_check_spec(run, cases):
 
 
 def correspond(run):
-    n = 70 if run.tier == "quick" else 1500
-    ntie = 10 if run.tier == "quick" else 100
+    n = 160 if run.tier == "quick" else 1500
+    ntie = 20 if run.tier == "quick" else 150
     cases = common.load_corpus(PROP)
-    cases += [gen_case(run.rng, big=(run.tier != "quick" and i % 5 == 0)) for i in range(n)]
+    cases += [gen_case(run.rng, big=(i % 5 == 0)) for i in range(n)]
     cases += [gen_case(run.rng, tie=True) for _ in range(ntie)]
     broken = []
     dis, fail = [], []
